@@ -33,6 +33,11 @@ try:
     demo = "demo_" + sid.lower().replace("-", "_")
     shutil.copyfile(os.path.join(out, "demo.rs"), os.path.join(wt, "tests", demo + ".rs"))
     cmd = ["cargo"] + (["+" + tc] if tc else []) + ["test", "--offline", "--test", demo]
+    if "--miri" in sys.argv:
+        # the demonstration needs the interpreter (undefined behaviour that does not crash natively)
+        cmd = ["cargo", "+nightly", "miri", "test", "--offline", "--test", demo]
+        env["MIRIFLAGS"] = "-Zmiri-disable-isolation"
+        env["CARGO_TARGET_DIR"] = "/tmp/confirm-target-miri"
     if feats:
         cmd += ["--features", feats]
     rc, o = run(cmd)
